@@ -244,19 +244,37 @@ def _parse_tlc(res, out, rc):
         res.violated.append("action-property")
     if "Temporal properties were violated" in out:
         res.violated.append("temporal")
+    for m in re.finditer(r"Error: Temporal property (\S+) was violated", out):
+        res.violated.append(m.group(1))
     if re.search(r"Error: Deadlock reached", out):
         res.violated.append("deadlock")
     if "Postcondition" in out and "violated" in out.split("Postcondition", 1)[1][:200]:
         res.violated.append("postcondition")
     for m in re.finditer(r"^Error: (.*)$", out, re.M):
         line = m.group(1)
-        if any(k in line for k in ("Invariant", "Action property", "Deadlock reached", "Temporal properties",
+        if any(k in line for k in ("Invariant", "Action property", "Deadlock reached", "Temporal properties", "Temporal property",
                                    "The behavior up to this point", "The following behavior")):
             continue
         res.errors.append(line.strip())
     if re.search(r"Assumption .* is false", out):
         res.errors.append("assumption false")
-    res.prints = [l.strip() for l in out.splitlines() if l.startswith("<<") or l.startswith('"')]
+    # PrintT output; TLC wraps long values over several lines: join until the brackets balance
+    res.prints = []
+    lines = out.splitlines()
+    i = 0
+    while i < len(lines):
+        l = lines[i]
+        if l.startswith("<<") or l.startswith('"'):
+            buf = l.strip()
+            j = i
+            while (buf.count("<<") > buf.count(">>") or buf.count("[") > buf.count("]") or buf.count("{") > buf.count("}")) \
+                    and j + 1 < len(lines) and j - i < 400:
+                j += 1
+                buf += " " + lines[j].strip()
+            res.prints.append(buf)
+            i = j + 1
+        else:
+            i += 1
     # coverage: lines "<Name line a, col b to line c, col d of module M>: x:y"
     for m in re.finditer(r"^<(\w+) line \d+, col \d+ to line \d+, col \d+ of module (\w+)>: (\d+):(\d+)", out, re.M):
         name = m.group(1)
